@@ -39,7 +39,20 @@ Input classes added when the check was strengthened (all part of A1 / A2):
    function that touches state the threads share (found by inspection of the modules: module-level containers, locks,
    function caches, the class registry, cached attributes of the model) and their direct callers: every thread does
    the check of a check-then-act sequence before any thread acts.  Oracles: sequential results, and ONE class object
-   per type name over the results of all the threads and of a later sequential parse.
+   per type name over the results of all the threads and of a later sequential parse;
+ * T with ONE THREAD AHEAD (second kind of forced preemption): lock step brings the threads to a window together; a
+   thread that ARRIVES while another one is in the middle of building state of a cold model (optimized copy, rule map,
+   lookahead sets, left-recursion flags, rule infos, synthesized classes) sees whatever the builder has published so
+   far.  The leader makes the first call on a cold model and is stopped before the first execution of a line of the
+   functions that build model state after construction (found by inspection: every function of the grammar-model
+   package outside the constructors that assigns attributes, the cached properties, their callees, plus the lock-step
+   functions); in the window a NEW thread makes one complete call, or is found blocked on a lock the leader holds.
+   One window per cold model (a completed call has used the model), at every n-th such line (the scripts share the
+   lines out between them), plus rounds with a window at every line.  Over three seed-generated LEFT-RECURSIVE grammars
+   (nested direct recursion, indirect recursion through 2-3 rules, a typed selector chain): their results depend on
+   flags an analysis pass leaves on the rules after construction.  Oracles: the result of the same call on a model of
+   its own that no other thread ever touched, for the leader, for every follower and for a LATER sequential parse on
+   the shared model (a shared model left wrong for good makes the threads and the later parse agree, wrongly).
 """
 from __future__ import annotations
 
@@ -770,7 +783,334 @@ class LockStep:
                 st[0] -= 1
                 self.stat['timeouts'] += 1
 
+# ---- forced preemption, second kind: ONE thread ahead of the others.  In lock step all the threads reach a window
+# together; a thread that ARRIVES while another one is in the middle of building shared state (the first user of a cold
+# model: optimized copy, rule maps, lookahead sets, left-recursion flags, rule infos, synthesized classes ...) is the
+# other adversarial schedule: it sees whatever the builder has made visible so far.  The leader thread makes the first
+# call on the cold model; from a chosen point on it stops before the first execution of every distinct line of the
+# watched functions, and in each such window a NEW thread (a follower) makes one COMPLETE call on the shared model - or
+# turns out to be blocked (on a lock the leader holds: its top frame does not move), which is the correct way not to
+# see a half-built state; blocked followers finish when the leader lets them.
+# A follower that completes a call has made the first use itself, so where the windows begin matters.  A sequential
+# calibration run of the leader's call on a model of its own gives the ordered distinct lines, and for each whether the
+# thread holds one of the library's module-level locks there and whether the line belongs to a state-building function.
+# Rounds (a cold model each): windows from the first line of every lock-held stretch on (the followers cannot build the
+# state themselves: they meet every intermediate state the lock holder publishes); windows from a few sampled lines of
+# state-building functions outside the locks on; windows from the very first line on.
+# Watched: the lock-step functions plus, found by inspection of the code objects of the grammar-model package, every
+# function outside the constructors that assigns attributes (state of the model that is built AFTER construction: by an
+# analysis pass, at first use, as a cache), every cached property, and the functions of the package they call.
+STATE_PACKAGES = ['tatsu.peg']
+_CTOR_NAMES = {'__init__', '__post_init__', '__new__', '__init_subclass__', '__set_name__'}
+
+def _package_modules(pkgname):
+    import pkgutil
+    out = []
+    try: pkg = importlib.import_module(pkgname)
+    except Exception: return out
+    out.append(pkg)
+    for info in pkgutil.walk_packages(getattr(pkg, '__path__', []), pkgname + '.'):
+        try: out.append(importlib.import_module(info.name))
+        except Exception: continue
+    return out
+
+def model_state_codes():
+    import dis
+    codes, cached = [], set()
+    for pk in STATE_PACKAGES:
+        for mod in _package_modules(pk):
+            codes += [c for c in _module_codes(mod) if c not in codes]
+            for v in list(vars(mod).values()):
+                if isinstance(v, type) and v.__module__ == mod.__name__:
+                    for a in list(vars(v).values()):
+                        if isinstance(a, functools.cached_property): cached.add(a.func.__code__)
+    def stores(c):
+        return any(i.opname in ('STORE_ATTR', 'DELETE_ATTR') for i in dis.get_instructions(c))
+    direct = [c for c in codes if c in cached or (c.co_name not in _CTOR_NAMES and stores(c))]
+    called = set()
+    for c in direct: called |= set(c.co_names)
+    dnames = {c.co_name for c in direct}
+    callees = [c for c in codes if c not in direct and c.co_name in called and c.co_name not in dnames
+               and not (c.co_name.startswith('__') and c.co_name.endswith('__'))]
+    return direct, callees
+
+def library_locks():
+    out = []
+    mods = []
+    for mn in LOCKSTEP_MODULES:
+        try: mods.append(importlib.import_module(mn))
+        except Exception: continue
+    for pk in STATE_PACKAGES: mods += _package_modules(pk)
+    for mod in mods:
+        for v in list(vars(mod).values()):
+            if isinstance(v, _LOCK_TYPES) and not any(v is o for o in out): out.append(v)
+    return out
+
+class Stagger:
+    def __init__(self, max_pauses, timeout, poll=0.001, patience=3):
+        self.max_pauses, self.timeout, self.poll, self.patience = max_pauses, timeout, poll, patience
+        direct, callees = model_state_codes()
+        self.direct = set(direct)
+        self.codes = list(dict.fromkeys(lockstep_codes() + direct + callees))
+        self.locks = library_locks()
+        self.cv = threading.Condition()
+        self.tool = None
+        self.leader = None
+        self.mode = None
+        self.stat = {'watched_functions': len(self.codes), 'state_functions': len(direct), 'library_locks': len(self.locks),
+                     'rounds': 0, 'rounds_from_lock_held_line': 0, 'windows': 0, 'served': 0, 'blocked': 0, 'timeouts': 0,
+                     'follower_calls': 0, 'windows_in_state_functions': 0, 'windows_lock_held': 0}
+    def install(self):
+        mon = sys.monitoring
+        for tid in (mon.PROFILER_ID, mon.COVERAGE_ID, 3, 4):
+            try:
+                mon.use_tool_id(tid, 'c10-stagger'); self.tool = tid; break
+            except ValueError:
+                continue
+        mon.register_callback(self.tool, mon.events.LINE, self.on_line)
+    def remove(self):
+        mon = sys.monitoring
+        self.disarm()
+        mon.register_callback(self.tool, mon.events.LINE, None)
+        mon.free_tool_id(self.tool)
+    def arm(self):
+        # events only while the leader runs; a line the leader has seen is switched off (DISABLE) until the next round
+        mon = sys.monitoring
+        mon.restart_events()
+        for c in self.codes:
+            mon.set_local_events(self.tool, c, mon.events.LINE)
+    def disarm(self):
+        mon = sys.monitoring
+        for c in self.codes:
+            mon.set_local_events(self.tool, c, 0)
+    def held(self):
+        for l in self.locks:
+            try:
+                if (l._is_owned() if hasattr(l, '_is_owned') else l.locked()): return True
+            except Exception:
+                continue
+        return False
+    def calibrate(self, call):
+        """the ordered distinct lines of the watched functions in a sequential run of the call"""
+        self.mode, self.seen, self.order, self.busy = 'calibrate', set(), [], False
+        self.leader = threading.get_ident()
+        self.arm()
+        try:
+            call()
+        finally:
+            self.disarm()
+            self.leader, self.mode = None, None
+        return self.order
+    def begin_round(self, start_key, spawn, single=False):
+        self.mode, self.seen, self.busy, self.single = 'run', set(), False, single
+        self.start_key, self.open, self.pauses = start_key, start_key is None, 0
+        self.spawn = spawn
+        self.followers, self.waiting = [], []
+        self.stat['rounds'] += 1
+    def on_line(self, code, line):
+        if threading.get_ident() != self.leader or self.busy:
+            return
+        k = (code, line)
+        if k in self.seen:
+            return sys.monitoring.DISABLE
+        self.seen.add(k)
+        if self.mode == 'calibrate':
+            self.order.append((k, self.held(), code in self.direct))
+            return
+        if not self.open:
+            if k != self.start_key: return
+            self.open = True
+        if self.pauses >= (1 if self.single else self.max_pauses):
+            return
+        self.pauses += 1
+        self.busy = True
+        try:
+            tr = os.environ.get('C10_STAGGER_TRACE')
+            b = dict(self.stat) if tr else None
+            if code in self.direct: self.stat['windows_in_state_functions'] += 1
+            if self.held(): self.stat['windows_lock_held'] += 1
+            self.pause()
+            if tr:
+                self.stat.setdefault('trace', []).append([code.co_name, line] + [x for x in ('served', 'blocked', 'timeouts') if self.stat[x] != b[x]])
+        finally:
+            self.busy = False
+    def pause(self):
+        import time
+        self.stat['windows'] += 1
+        if self.waiting and not self.held():
+            # the followers that were blocked run now: let them finish first (a crowd of threads is not the point)
+            t0 = time.monotonic()
+            sys.setswitchinterval(0.005)
+            try:
+                for t in self.waiting:
+                    t.join(max(0.0, 3.0 - (time.monotonic() - t0)))
+            finally:
+                sys.setswitchinterval(1e-6)
+            self.waiting = []
+        st = {'started': False, 'done': False, 'ident': None}
+        def body(call):
+            st['ident'] = threading.get_ident()
+            st['started'] = True
+            try:
+                call()
+            finally:
+                with self.cv:
+                    st['done'] = True
+                    self.stat['follower_calls'] += 1
+                    self.cv.notify_all()
+        t = self.spawn(body)
+        self.followers.append(t)
+        t0 = time.monotonic()
+        last, still = None, 0
+        while True:
+            with self.cv:
+                if st['done'] or self.cv.wait_for(lambda: st['done'], self.poll):
+                    self.stat['served'] += 1
+                    return
+            if time.monotonic() - t0 > self.timeout:
+                self.stat['timeouts'] += 1
+                return
+            fr = sys._current_frames().get(st['ident']) if st['started'] else None
+            sg = None if fr is None else (id(fr), fr.f_lasti)
+            still = still + 1 if (sg is not None and sg == last) else 0
+            last = sg
+            if still >= self.patience:
+                self.stat['blocked'] += 1
+                self.waiting.append(t)
+                return
+    def lead(self, call):
+        self.leader = threading.get_ident()
+        self.arm()
+        try:
+            return call()
+        finally:
+            self.disarm()
+            self.leader = None
+
+def op_stagger(op):
+    sys.setswitchinterval(1e-6)
+    import random
+    calls = op['calls']
+    tcompile = bool(op.get('tcompile'))
+    keep = []
+    def one(m, p, classes=None):
+        try:
+            r = mparse_call(m, p)
+            if classes is not None:
+                keep.append(r)
+                collect_classes(r, classes, set())
+            return canon_ok(r)
+        except Exception as e:
+            return canon_exc(e)
+    def clear_compile_cache():
+        import tatsu.api.api as _api
+        for v in vars(_api).values():
+            if isinstance(v, dict) and v and all(isinstance(k, tuple) for k in v): v.clear()
+    def attempt(m, text, p, classes):
+        try:
+            mm = do_compile(op['a'], text) if tcompile else m
+        except Exception as e:
+            return canon_exc(e)
+        return one(mm, p, classes)
+    conf = op['stagger']
+    sg = Stagger(conf['max_pauses'], conf['timeout'], conf['poll'], conf['patience'])
+    rnd = random.Random(conf['seed'])
+    bad, idbad, later, count = [], [], [], [0, 0]
+    def text_of(suffix):
+        return retype(GRAMMARS[op['a']['g']], suffix) if op.get('fresh_types') else None
+    def reference(text, classes):
+        try:
+            clear_compile_cache()
+            pm = do_compile(op['a'], text)
+            return [one(pm, p, classes) for p in calls]
+        except Exception as e:
+            return [canon_exc(e)] * len(calls)
+    def play(why, start_key, text, single, ref):
+        count[1] += 1
+        rn = count[1]
+        clear_compile_cache()
+        m = None if tcompile else do_compile(op['a'], text)
+        classes = {}
+        results = []          # (call index, result)
+        rlock = threading.Lock()
+        turn = [rnd.randrange(64)]
+        def spawn(body):
+            turn[0] += 1
+            i = 1 + turn[0] % (len(calls) - 1) if len(calls) > 1 else 0
+            def run():
+                def call():
+                    r = attempt(m, text, calls[i], classes)
+                    with rlock: results.append((i, r))
+                body(call)
+            t = threading.Thread(target=run)
+            t.start()
+            return t
+        sg.begin_round(start_key, spawn, single)
+        def leader():
+            r = sg.lead(lambda: attempt(m, text, calls[0], classes))
+            with rlock: results.append((0, r))
+        lt = threading.Thread(target=leader)
+        lt.start()
+        lt.join()
+        for t in sg.followers: t.join(60)
+        died = sum(1 for t in sg.followers if t.is_alive())
+        # what each call returns when it is the only one: on the shared (now warm) model, and on a model of its own
+        # that no other thread has ever touched (the shared model may have been left in a wrong state for good)
+        try:
+            mm = do_compile(op['a'], text) if tcompile else m
+            want = [one(mm, p, classes) for p in calls]
+        except Exception as e:
+            want = [canon_exc(e)] * len(calls)
+        if ref is None:
+            ref = reference(text, classes)
+        with rlock: got = list(results)
+        got += [(0, {'exc': 'THREAD-STUCK'})] * died
+        at = None if start_key is None else '%s:%d' % (start_key[0].co_name, start_key[1])
+        for i, r in got:
+            count[0] += 1
+            if r != ref[i]:
+                bad.append({'thread': i, 'round': rn, 'role': 'leader' if i == 0 else 'follower',
+                            'windows': why, 'from': at, 'got': r, 'want': ref[i]})
+        for i in range(len(calls)):
+            if want[i] != ref[i]:
+                later.append({'thread': i, 'round': rn, 'windows': why, 'from': at, 'got': want[i], 'want': ref[i]})
+        for name, objs in sorted(classes.items()):
+            if len(objs) > 1:
+                idbad.append({'round': rn, 'class': name, 'distinct_objects': len(objs)})
+        return ref
+    seq = None
+    sg.install()
+    try:
+        # calibration: the leader's call, alone, on a model of its own; the sequential results of all the calls on it
+        clear_compile_cache()
+        text0 = text_of('S0')
+        m0 = None if tcompile else do_compile(op['a'], text0)
+        order = sg.calibrate(lambda: attempt(m0, text0, calls[0], None))
+        sg.stat['calibration_lines'] = len(order)
+        sg.stat['calibration_lines_lock_held'] = sum(1 for o in order if o[1])
+        keepc = {}
+        ref0 = reference(text0, keepc)
+        seq = ref0
+        # ONE window per cold model (a follower that completes a call has used the model: the next window would not
+        # be a first use any more): at every stride-th line that is under a library lock or in a state-building function
+        points = [k for (k, held, state) in order if held or state]
+        for k in points[conf['offset'] % conf['stride']::conf['stride']][:conf['max_single']]:
+            play('one', k, text0, True, ref0)
+            sg.stat['single_window_rounds'] = sg.stat.get('single_window_rounds', 0) + 1
+        # windows at every line from the first line of each lock-held stretch on, and from the very first line on
+        starts = [('from-lock', k) for i, (k, held, state) in enumerate(order) if held and (i == 0 or not order[i - 1][1])]
+        starts = starts[:2] + [('all', None)]
+        for j, (why, k) in enumerate(starts):
+            play(why, k, text_of('S%d' % (j + 1)), False, None)
+            if why == 'from-lock': sg.stat['rounds_from_lock_held_line'] += 1
+    finally:
+        sg.remove()
+    return {'ok': 'threads', 'bad': bad[:5], 'nbad': len(bad), 'idbad': idbad[:5], 'later': later[:5], 'n': count[0],
+            'seq': seq, 'stagger': sg.stat, 'types': {}}
+
 def op_threads(op):
+    if op.get('stagger'):
+        return op_stagger(op)
     sys.setswitchinterval(1e-6)
     calls = op['calls']
     cold, fresh_types, tcompile = op['cold'], bool(op.get('fresh_types')), bool(op.get('tcompile'))
@@ -797,7 +1137,7 @@ def op_threads(op):
     if not cold:
         m = do_compile(op['a'])
         seq = [one(m, p) for p in calls]
-    bad, idbad, n = [], [], 0
+    bad, idbad, later, n = [], [], [], 0
     if ls: ls.install()
     try:
         for rn in range(op['rounds']):
@@ -839,6 +1179,17 @@ def op_threads(op):
                     want = [one(mm, p, classes) for p in calls]
                 except Exception as e:
                     want = [canon_exc(e)] * len(calls)
+                # ... and on a model of its own that no other thread has ever touched: the first calls may have left
+                # the shared model in a wrong state for good (then the threads and the later parse agree, wrongly)
+                try:
+                    clear_compile_cache()
+                    pm = do_compile(op['a'], text)
+                    ref = [one(pm, p, classes) for p in calls]
+                except Exception as e:
+                    ref = [canon_exc(e)] * len(calls)
+                for i in range(len(calls)):
+                    if want[i] != ref[i]:
+                        later.append({'thread': i, 'round': rn, 'got': want[i], 'want': ref[i]})
             for i, acc in enumerate(res):
                 for r in acc or [{'exc': 'THREAD-DIED'}]:
                     n += 1
@@ -850,7 +1201,7 @@ def op_threads(op):
             seq = want
     finally:
         if ls: ls.remove()
-    return {'ok': 'threads', 'bad': bad[:5], 'nbad': len(bad), 'idbad': idbad[:5], 'n': n,
+    return {'ok': 'threads', 'bad': bad[:5], 'nbad': len(bad), 'idbad': idbad[:5], 'later': later[:5], 'n': n,
             'seq': seq, 'lockstep': ls.stat if ls else None, 'types': {}}
 
 def run_script(script):
@@ -922,6 +1273,7 @@ def worker_env():
 
 EPH_TOTAL = {'made': 0, 'collected': 0, 'address_reused': 0}
 LOCKSTEP_TOTAL: dict = {}
+STAGGER_TOTAL: dict = {}
 _EPH_TOTAL_LOCK = threading.Lock()
 
 
@@ -1071,6 +1423,10 @@ NTEXT = {1: 8, 2: 5, 3: 5, 4: 5, 5: 4, 6: 5, 7: 6, 8: 6, 9: 6, 10: 7, 11: 7, 12:
 GSTARTS = {1: [0, 0, 1, 6, 7, 8], 2: [0, 0, 5], 3: [0, 0, 1], 4: [0, 0, 2, 3, 4, 6], 5: [0, 0, 5], 6: [0, 0, 1],
            7: [0, 0, 1, 7, 8], 8: [0, 0, 1, 7, 8], 9: [0, 0, 1, 7, 8],
            10: [0, 0, 0, 1, 7], 11: [0, 0, 0, 1, 7], 12: [0, 0, 0, 1, 7]}
+LREC_GRAMS = [13, 14, 15]       # seed-generated left-recursive grammars (thread scripts only, see gen_leftrec_family)
+for _g in LREC_GRAMS:
+    NTEXT[_g] = 6
+GSTARTS.update({13: [0, 0, 1], 14: [0, 0, 1, 2], 15: [0, 0, 1]})
 TYPED_GRAMS = [2, 3, 4, 5]      # grammars whose rules name node types (rule::Type): classes are synthesized on first use
 ALL_SEMS = [1, 2, 3, 4, 5, 6, 7, 8]
 TWIN_SEMS = {7, 8}
@@ -1097,6 +1453,91 @@ def gen_siblings(rng):
                        f"pair{typed} = k:`{c}` v:num ;\n"
                        f"num = /\\d+/ ;\n")
     return {'grammars': grammars, 'texts': {g: SIBLING_TEXTS for g in SIBLINGS}}
+
+
+# ---- left-recursive grammars
+def gen_leftrec_family(rng):
+    """Three left-recursive grammars chosen from the seed.  What a parse with them returns depends on state that is
+    computed for the model after its construction (which rules lead a recursion, which are memoizable, the rule infos
+    built from those flags): 13 = 2-3 nested levels of directly left-recursive binary operators (some levels right
+    recursive, a postfix operator, brackets back to the top), 14 = indirect left recursion through a cycle of 2 or 3
+    rules, 15 = a left-recursive chain of selectors whose rules name node types (model building).  Texts: random
+    derivations with several operators per level (the shape of the result shows whether the seed was grown), one
+    single atom, one text that ends inside an operator (failure)."""
+    punct = ['+', '-', '*', '/', '%', '^', '&', '|', '<', '>', '=', '~', '!', '?', ':', ',']
+    rng.shuffle(punct)
+    take = lambda: punct.pop()
+    op, cl = rng.choice([('(', ')'), ('[', ']'), ('{', '}')])
+    atom_re, atoms = rng.choice([('\\d+', ['1', '22', '3', '40', '5']), ('[a-z]+', ['a', 'bc', 'd', 'efg', 'h']),
+                                 ('[a-z]\\d*', ['a1', 'b', 'c22', 'd', 'e5'])])
+    # 13: nested levels
+    nlev = rng.choice([2, 3])
+    levels = []
+    for i in range(nlev):
+        levels.append({'ops': [take() for _ in range(rng.choice([1, 2]))],
+                       'right': i > 0 and rng.random() < 0.3, 'postfix': take() if rng.random() < 0.3 else None})
+    lines = ['start = e0 $ ;']
+    for i, lv in enumerate(levels):
+        me, nxt = f'e{i}', f'e{i + 1}'
+        alts = [(f"{nxt} '{o}' {me}" if lv['right'] else f"{me} '{o}' {nxt}") for o in lv['ops']]
+        if lv['postfix']:
+            alts.append(f"{me} '{lv['postfix']}'")
+        lines.append(f"{me} = " + ' | '.join(alts + [nxt]) + ' ;')
+    lines.append(f"e{nlev} = '{op}' e0 '{cl}' | /{atom_re}/ ;")
+    g13 = '\n' + '\n'.join(lines) + '\n'
+
+    def expr13(depth, lev=0):
+        if lev == nlev:
+            if depth > 0 and rng.random() < 0.25:
+                return op + expr13(depth - 1) + cl
+            return rng.choice(atoms)
+        lv = levels[lev]
+        out = expr13(depth, lev + 1)
+        for _ in range(rng.choice([0, 1, 2, 3]) if depth > 0 else 0):
+            out += ' ' + rng.choice(lv['ops']) + ' ' + expr13(depth - 1, lev + 1)
+            if lv['postfix'] and rng.random() < 0.3:
+                out += lv['postfix']
+        return out
+    def several13():
+        for _ in range(50):
+            t = expr13(2)
+            if sum(t.count(o) for lv in levels for o in lv['ops']) >= 3:
+                return t
+        return t
+    t13 = [several13(), several13(), several13(), rng.choice(atoms),
+           rng.choice(atoms) + ' ' + levels[0]['ops'][0], several13() + ' ' + cl]
+
+    # 14: indirect left recursion, a cycle of 2 or 3 rules
+    p1, p2, p3, p4 = take(), take(), take(), take()
+    if rng.random() < 0.5:
+        g14 = (f"\nstart = a $ ;\na = b '{p1}' | atom ;\nb = a '{p2}' | a '{p3}' ;\natom = /{atom_re}/ ;\n")
+        steps = [p2 + p1, p3 + p1]
+        broken = p2
+    else:
+        g14 = (f"\nstart = a $ ;\na = b '{p1}' | atom ;\nb = c '{p2}' | c '{p3}' ;\nc = a '{p4}' ;\natom = /{atom_re}/ ;\n")
+        steps = [p4 + p2 + p1, p4 + p3 + p1]
+        broken = p4 + p2
+    chain = lambda k: rng.choice(atoms) + ''.join(' ' + ' '.join(rng.choice(steps)) for _ in range(k))
+    t14 = [chain(2), chain(3), chain(4), rng.choice(atoms), chain(1) + ' ' + ' '.join(broken), chain(1)]
+
+    # 15: typed selector chain
+    dot, lb, rb = take(), *rng.choice([('[', ']'), ('(', ')'), ('<', '>')])
+    if dot in (lb, rb): dot = take()
+    tn = rng.sample(['Sel', 'Idx', 'Twig', 'Top', 'Hop', 'Ref', 'Cell'], 4)
+    g15 = (f"\nstart::{tn[0]} = v:p $ ;\np = sel | idx | name ;\nsel::{tn[1]} = o:p '{dot}' n:name ;\n"
+           f"idx::{tn[2]} = o:p '{lb}' i:p '{rb}' ;\nname::{tn[3]} = n:/[a-z]+/ ;\n")
+    names = ['a', 'bc', 'd', 'ef', 'g']
+    def sel15(depth, k):
+        out = rng.choice(names)
+        for _ in range(k):
+            if depth > 0 and rng.random() < 0.4:
+                out += lb + sel15(depth - 1, rng.choice([0, 1, 2])) + rb
+            else:
+                out += dot + rng.choice(names)
+        return out
+    t15 = [sel15(1, 2), sel15(1, 3), sel15(2, 4), rng.choice(names), sel15(1, 2) + dot, sel15(1, 1) + lb]
+    return {'grammars': {13: g13, 14: g14, 15: g15}, 'texts': {13: t13, 14: t14, 15: t15},
+            'describe': {'13': g13.strip().split('\n'), '14': g14.strip().split('\n'), '15': g15.strip().split('\n')}}
 
 
 # ---- regex-valued settings in different forms
@@ -1991,6 +2432,37 @@ def run_threads(chk: Check, pool: Pool):
         scripts.append([{'op': 'threads', 'a': a, 'calls': calls, 'cold': True, 'rounds': 2, 'reps': 2,
                          'fresh_types': True, 'tcompile': j % 3 == 2,
                          'lockstep': {'visits': rng.choice([2, 3]), 'timeout': 0.003}}])
+    # forced preemption, second kind: one thread AHEAD of the others.  The leader makes the first call on a cold model
+    # and is stopped before the first execution of every distinct line of the functions that build state of the model
+    # after its construction; the followers each make a complete call in every such window (see Stagger in the worker).
+    # Mostly over the seed-generated left-recursive grammars: what their parses return depends on the flags the
+    # left-recursion analysis leaves on the rules of the optimized copy and on the rule infos cached from them.
+    import random as _random
+    srng = _random.Random(f'{PID}-{chk.seed}-stagger')
+    ns = 8 if chk.quick else 48
+    for j in range(ns):
+        g = LREC_GRAMS[j % len(LREC_GRAMS)] if j % 4 != 3 else srng.choice(TYPED_GRAMS + [6, 1])
+        a = {'g': g, 'name': srng.choice([0, 0, 1]), 'sem': None, 'asmodel': False, 'bopt': None, 'cs': 0}
+        how = srng.randrange(4)
+        if how == 1 or (g in TYPED_GRAMS + [15] and how == 2):
+            a['asmodel'] = True
+        elif how == 2:
+            a['sem'] = srng.choice([1, 2, 3])        # a user semantics object shared by the threads
+        elif how == 3 and g in TYPED_GRAMS + [15]:
+            a['bopt'] = srng.choice([1, 2])
+        calls = []
+        for k in range(srng.choice([2, 2, 3, 4])):
+            pa = gen_pargs(srng, g)
+            pa.update(cfgobj=None, sem=None, asmodel=False, ps=srng.choice([0, 0, 0, 5, 6]))
+            if srng.random() < 0.8:
+                pa['start'] = 0
+                pa['text'] = srng.randrange(min(3, NTEXT[g]))     # texts that parse, several operators
+            calls.append(pa)
+        scripts.append([{'op': 'threads', 'a': a, 'calls': calls, 'cold': True, 'fresh_types': True,
+                         'tcompile': j % 4 == 2,
+                         'stagger': {'max_pauses': 300 if j % 4 != 2 else 60, 'timeout': 0.25, 'poll': 0.001,
+                                     'patience': 3, 'stride': 6 if chk.quick else 2, 'offset': j, 'max_single': 80,
+                                     'seed': srng.randrange(1 << 30)}}])
     res = [r[-1] for r in pool.map(scripts)]
     nbad = 0
     for sc, r in zip(scripts, res):
@@ -2000,6 +2472,11 @@ def run_threads(chk: Check, pool: Pool):
             chk.count('T.lockstep_scripts')
             for k, v in (r.get('lockstep') or {}).items():
                 LOCKSTEP_TOTAL[k] = LOCKSTEP_TOTAL.get(k, 0) + v
+        if sc[0].get('stagger'):
+            chk.count('T.stagger_scripts')
+            chk.count('T.stagger_scripts.grammar.%s' % ('left-recursive' if sc[0]['a']['g'] in LREC_GRAMS + [6] else 'other'))
+            for k, v in (r.get('stagger') or {}).items():
+                STAGGER_TOTAL[k] = STAGGER_TOTAL.get(k, 0) + v
         if 'exc' in r:
             chk.count('T.compile_failed')
             continue
@@ -2017,6 +2494,14 @@ def run_threads(chk: Check, pool: Pool):
             chk.violation(sig, f'a parse on a model shared by {len(sc[0]["calls"])} threads returned {json.dumps(b["got"])[:120]} '
                                f'instead of its sequential result {json.dumps(b["want"])[:120]}',
                           {'oracle': 'threads vs sequential', 'script': sc, 'bad': r['bad'], 'nbad': r['nbad']})
+        if r.get('later'):
+            b = r['later'][0]
+            chk.violation('threads:later-sequential-differs:' + (b['got'].get('exc') or 'value'),
+                          f'after {len(sc[0]["calls"])} threads made the first calls on a shared model, a sequential parse on '
+                          f'that model returns {json.dumps(b["got"])[:120]}; on a model of its own the call returns '
+                          f'{json.dumps(b["want"])[:120]}',
+                          {'oracle': 'threads: later sequential parse on the shared model vs a private model',
+                           'script': sc, 'bad': r['later']})
         if r.get('idbad'):
             b = r['idbad'][0]
             chk.violation('threads:two-classes-of-one-name',
@@ -2026,6 +2511,11 @@ def run_threads(chk: Check, pool: Pool):
     chk.obligation('T:the forced-preemption driver found the shared-state functions and brought the threads together in them',
                    'oracle', LOCKSTEP_TOTAL.get('watched_functions', 0) > 0 and LOCKSTEP_TOTAL.get('all_arrived', 0) > 0,
                    json.dumps(LOCKSTEP_TOTAL))
+    chk.obligation('T:the one-thread-ahead driver found the functions that build model state after construction, stopped '
+                   'the leader inside them and the followers made complete calls meanwhile', 'oracle',
+                   STAGGER_TOTAL.get('state_functions', 0) > 0 and STAGGER_TOTAL.get('windows_in_state_functions', 0) > 0
+                   and STAGGER_TOTAL.get('windows_lock_held', 0) > 0 and STAGGER_TOTAL.get('served', 0) > 0,
+                   json.dumps(STAGGER_TOTAL))
     chk.obligation('T:threaded results equal sequential results (up to the recorded findings)', 'oracle',
                    not any(v['signature'].startswith('threads:') for v in chk.violations), f'{nbad} scripts differ')
 
@@ -2037,6 +2527,11 @@ def main():
     extra['grammars'].update(fam['grammars'])
     extra['texts'].update(fam['texts'])
     extra['settings'] = fam['settings']
+    import random as _random
+    lfam = gen_leftrec_family(_random.Random(f'{PID}-{chk.seed}-leftrec'))
+    extra['grammars'].update(lfam['grammars'])
+    extra['texts'].update(lfam['texts'])
+    chk.extra['leftrec_family'] = lfam['describe']
     chk.extra['regex_form_family'] = fam['describe']
     EXTRA_ENV['json'] = json.dumps(extra, sort_keys=True)
     chk.rule = ('A1: random histories (2..8 calls quick, 2..12 thorough) of compile / model.parse / compile+parse / '
@@ -2058,14 +2553,22 @@ def main():
                 'plus 6 (40 thorough) scripts of 2-6 threads making the first parses on a cold model with type names new to the '
                 'process (asmodel / basetype / a shared ModelBuilderSemantics; the model shared or obtained by each thread from '
                 'the module-level API), driven in lock step through every function that touches shared state (forced preemption '
-                'before each line, sys.monitoring); oracles: sequential results and one class object per type name. '
+                'before each line, sys.monitoring); oracles: sequential results and one class object per type name; '
+                'plus 8 (48 thorough) one-thread-ahead scripts, mostly over 3 seed-generated left-recursive grammars (nested '
+                'direct, indirect through 2-3 rules, typed selector chain): the leader makes the first call on a cold model and '
+                'is stopped before a line of a function that builds model state after construction or runs under a library '
+                'lock (found by inspection + a sequential calibration run), a new thread makes a complete call in the window '
+                '(or blocks on the lock); one window per cold model at every 6th (2nd thorough) such line, the scripts sharing '
+                'the lines out, plus rounds with a window at every line; every result and a later sequential parse on the '
+                'shared model compared with the same call on a model no other thread touched. '
                 'Non-trivial: the call has at least one earlier call; distinct by content of the history prefix.')
     chk.trusted += ['CPython 3.12 (fork, threads, GIL), the abstraction of call arguments to Lib/Api.v identities '
                     '(harness Abstraction), sha256 injective on the pool grammars',
                     'modelled: api.compile cache + post-lookup mutation, api.parse, to_python_sourcecode, Grammar.parse '
                     'semantics precedence, bound() field discipline; not modelled: the parse itself (section variable), '
-                    'synthesized-class registry (oracle only), bytecode-level atomicity (threads: sampled schedules and '
-                    'line-level lock-step schedules forced with sys.monitoring)']
+                    'synthesized-class registry (oracle only), bytecode-level atomicity (threads: sampled schedules, '
+                    'line-level lock-step schedules and one-thread-ahead schedules forced with sys.monitoring; a follower '
+                    'is taken to be blocked when its top frame does not move for 3 ms)']
     chk.assumptions += ['semantics objects are truthy and are not classes', 'hasha(grammar) is injective',
                         'threads: the theorem covers the cache logic; the GIL makes dict get/set atomic']
     variant = source_shape(chk)
@@ -2093,6 +2596,7 @@ def main():
         # forced-preemption driver: rendezvous points reached / reached by all the running threads / given up after the
         # timeout (informative, timing dependent)
         chk.extra['lockstep_driver'] = dict(LOCKSTEP_TOTAL)
+        chk.extra['stagger_driver'] = dict(STAGGER_TOTAL)
     chk.exhaustive = False
     return chk.finish()
 
